@@ -181,7 +181,7 @@ def generate(rng, tier, idx):
     sc.update(front=front, shape=name, query=q, enc=enc, policy=policy, delim=',', with_headers=with_headers,
               in_text=workload.to_csv(in_rows, ',', rng.choice(['\n', '\n', '\r\n']), rng.random() < 0.8),
               join_text=(None if jrows is None else workload.to_csv(jrows, ',')),
-              bounded=bool(flags.get('bounded')), buffered=bool(flags.get('buffered')))
+              bounded=bool(flags.get('bounded')) or ' top ' in (' ' + q.lower()) or ' limit ' in q.lower(), buffered=bool(flags.get('buffered')))
     sc['color'] = rng.random() < 0.12
     if front == 'stream':
         sc['sink'] = gen_sink(rng, enc)
